@@ -36,8 +36,8 @@ var fieldBinds = map[string]fieldBind{
 	"types.Response.Version":                                {acc: "r_version"},
 	"types.Response.Issuer":                                 {acc: "r_issuer"},
 	"types.Response.Status":                                 {acc: "r_status"},
-	"types.Response.Assertions":                             {acc: "r_assertions"},
-	"types.Response.SignatureValidated":                     {acc: "r_signature_validated"},
+	"types.Response.Assertions":                             {acc: "r_assertions", set: "set_r_assertions"},
+	"types.Response.SignatureValidated":                     {acc: "r_signature_validated", set: "set_r_signature_validated"},
 	"types.Issuer.Value":                                    {},
 	"types.Status.StatusCode":                               {acc: "st_status_code"},
 	"types.StatusCode.Value":                                {},
@@ -102,6 +102,143 @@ var fieldBinds = map[string]fieldBind{
 	"saml2.KeyStore.Signer":                                 {acc: "ks_signer"},
 	"saml2.ProxyRestriction.Count":                          {acc: "pr_count", set: "set_pr_count"},
 	"saml2.ProxyRestriction.Audience":                       {acc: "pr_audience", set: "set_pr_audience"},
+	// decryption glue (package types; model records of Decode.v / Decrypt.v)
+	"types.EncryptedAssertion.EncryptionMethod": {acc: "ea_method"},
+	"types.EncryptedAssertion.EncryptedKey":     {acc: "ea_key"},
+	"types.EncryptedAssertion.DetEncryptedKey":  {acc: "ea_det_key"},
+	"types.EncryptedAssertion.CipherValue":      {acc: "ea_cipher_value"},
+	"types.EncryptedKey.X509Data":               {acc: "ek_x509"},
+	"types.EncryptedKey.CipherValue":            {acc: "ek_cipher_value"},
+	"types.EncryptedKey.EncryptionMethod":       {acc: "ek_method"},
+	"types.EncryptionMethod.Algorithm":          {acc: "em_algorithm"},
+	"types.EncryptionMethod.DigestMethod":       {acc: "em_digest"},
+	"types.DigestMethod.Algorithm":              {},
+	"tls.Certificate.Certificate":               {acc: "sc_chain"},
+	"tls.Certificate.PrivateKey":                {acc: "sc_key"},
+	// tree-level entry points
+	"saml2.SAMLServiceProvider.SkipSignatureValidation": {acc: "cfg_skip_sig"},
+	"types.Response.EncryptedAssertions":                {tmpl: "(List.repeat zero_enc_assertion (r_encrypted_count %s))", set: "set_r_encrypted"},
+	"types.Assertion.SignatureValidated":                {acc: "a_signature_validated", set: "set_a_signature_validated"},
+	"types.LogoutResponse.SignatureValidated":           {acc: "lr_signature_validated", set: "set_lr_signature_validated"},
+	"saml2.LogoutRequest.SignatureValidated":            {acc: "lq_signature_validated", set: "set_lq_signature_validated"},
+}
+
+// fields of the SP as the message builders read them (receiver model Build.bcfg); key: <struct>.<field>@<receiver model>
+var fieldBindsFor = map[string]fieldBind{
+	"saml2.SAMLServiceProvider.ServiceProviderIssuer@bcfg":       {acc: "b_sp_issuer"},
+	"saml2.SAMLServiceProvider.IdentityProviderIssuer@bcfg":      {acc: "b_idp_issuer"},
+	"saml2.SAMLServiceProvider.AssertionConsumerServiceURL@bcfg": {acc: "b_acs_url"},
+	"saml2.SAMLServiceProvider.IdentityProviderSSOURL@bcfg":      {acc: "b_idp_sso_url"},
+	"saml2.SAMLServiceProvider.IdentityProviderSLOURL@bcfg":      {acc: "b_idp_slo_url"},
+	"saml2.SAMLServiceProvider.ForceAuthn@bcfg":                  {acc: "b_force_authn"},
+	"saml2.SAMLServiceProvider.IsPassive@bcfg":                   {acc: "b_is_passive"},
+	"saml2.SAMLServiceProvider.NameIdFormat@bcfg":                {acc: "b_name_id_format"},
+	"saml2.SAMLServiceProvider.RequestedAuthnContext@bcfg":       {acc: "b_rac"},
+	"saml2.SAMLServiceProvider.SignAuthnRequests@bcfg":           {acc: "b_sign_authn_requests"},
+	"saml2.RequestedAuthnContext.Comparison@bcfg":                {acc: "rac_comparison"},
+	"saml2.RequestedAuthnContext.Contexts@bcfg":                  {acc: "rac_contexts"},
+}
+
+// structs of other packages the translated code reads (field -> type), as far as the model mirrors them
+var foreignStructs = map[string]map[string]string{
+	"tls.Certificate": {"Certificate": "[][]byte", "PrivateKey": "crypto.PrivateKey"},
+}
+
+// pointer parameters that are NOT assumed non-nil (represented as option)
+var nilableParams = map[string]bool{"*tls.Certificate": true}
+
+// opaque handle / scalar types of other packages and their representation
+var opaqueTypes = map[string]string{
+	"cipher.Block":      "string",            // the key bytes; never nil beside a nil error
+	"cipher.AEAD":       "string",            // the key bytes
+	"cipher.BlockMode":  "(string * string)", // key, IV
+	"crypto.PrivateKey": "key_kind",
+	"byte":              "ascii",
+	"[][]byte":          "list string",
+	"etreeutils.NSContext": "nsctx",
+	"etree.pref":           "pref", // the result of el.Parent() inside an NSFindIterate handler
+	"bt.handle":            "(list nat)", // builders: an element pointer = the path of the element in the tree under construction
+	"bt.doc":               "docref",
+	"bt.tree":              "node",
+	"uuid.UUID":            "string",
+}
+
+// type switches: tag type -> case type -> boolean test on the model value
+var typeSwitchBinds = map[string]map[string]string{
+	"crypto.PrivateKey": {"*rsa.PrivateKey": "(key_is_rsa %s)"},
+}
+
+// calls into other packages (and methods of opaque handles, key "M:<type>.<method>"): template over the used arguments
+type callBind struct {
+	tmpl  string
+	use   []int          // Go argument positions feeding the template, in order (receiver first for methods: position -1)
+	deref map[int]bool   // nil-able argument that must be non-nil (nil = panic inside the callee)
+	lits  map[int]string // arguments that must be exactly this source text
+	nargs int
+	typ   string // Go result type ("res:T,error" for (T, error))
+	opt   bool   // the template yields an option: None = the call panics
+	val   bool   // result is a non-nil value of a nil-able type (coerced with Some)
+	param string // using the call adds this parameter to the translated function (a value supplied from outside)
+	frozen map[int]bool // builders: the argument is an element handle; the callee receives the element as built so far
+}
+
+var callBinds = map[string]callBind{
+	"base64.StdEncoding.DecodeString": {tmpl: "(b64_decode %s)", use: []int{0}, nargs: 1, typ: "res:[]byte,error"},
+	"cipher.NewGCM":                   {tmpl: "(new_gcm %s)", use: []int{0}, nargs: 1, typ: "res:cipher.AEAD,error"},
+	"M:cipher.AEAD.NonceSize":         {tmpl: "(Z.of_nat gcm_nonce_size)", nargs: 0, typ: "int"},
+	"M:cipher.AEAD.Open":              {tmpl: "(aead_open gcm_open %s %s %s)", use: []int{-1, 1, 2}, lits: map[int]string{0: "nil", 3: "nil"}, nargs: 4, typ: "res:[]byte,error"},
+	"M:cipher.Block.BlockSize":        {tmpl: "(Z.of_nat aes_block_size)", nargs: 0, typ: "int"},
+	"cipher.NewCBCDecrypter":          {tmpl: "(cbc_new %s %s)", use: []int{0, 1}, nargs: 2, typ: "cipher.BlockMode", opt: true},
+	"bytes.TrimRight":                 {tmpl: "(trim_right_zero %s)", use: []int{0}, lits: map[int]string{1: `"\x00"`}, nargs: 2, typ: "[]byte"},
+	"bytes.Equal":                     {tmpl: "(%s =?s %s)", use: []int{0, 1}, nargs: 2, typ: "bool"},
+	"debugKeyFp":                      {tmpl: "(debug_fp %s)", use: []int{0}, nargs: 1, typ: "string"},
+	"sha1.New":                        {tmpl: "HSha1", nargs: 0, typ: "hash.Hash", val: true},
+	"sha256.New":                      {tmpl: "HSha256", nargs: 0, typ: "hash.Hash", val: true},
+	"sha512.New":                      {tmpl: "HSha512", nargs: 0, typ: "hash.Hash", val: true},
+	"rsa.DecryptOAEP":                 {tmpl: "(oaep rsa_oaep %s %s)", use: []int{0, 3}, deref: map[int]bool{0: true}, lits: map[int]string{1: "rand.Reader", 2: "pk", 4: "nil"}, nargs: 5, typ: "res:[]byte,error"},
+	"rsa.DecryptPKCS1v15":             {tmpl: "(pkcs1 rsa_pkcs1 %s)", use: []int{2}, lits: map[int]string{0: "rand.Reader", 1: "pk"}, nargs: 3, typ: "res:[]byte,error"},
+	"aes.NewCipher":                   {tmpl: "(new_cipher %s)", use: []int{0}, nargs: 1, typ: "res:cipher.Block,error"},
+	// tree-level entry points: parts of the pipeline modelled elsewhere are Section variables of GenTree.v
+	"sp.validateElementSignature":     {tmpl: "(dsig_call dsig %s)", use: []int{0}, deref: map[int]bool{0: true}, nargs: 1, typ: "res:*etree.Element,error"},
+	"sp.validationContext().Validate": {tmpl: "(dsig_call dsig %s)", use: []int{0}, deref: map[int]bool{0: true}, nargs: 1, typ: "res:*etree.Element,error"},
+	"etreeutils.NSDetatch":            {tmpl: "(res_some (detach %s %s))", use: []int{0, 1}, deref: map[int]bool{1: true}, nargs: 2, typ: "res:*etree.Element,error"},
+	"M:*etree.Document.Root":          {tmpl: "(Some %s)", use: []int{-1}, deref: map[int]bool{-1: true}, nargs: 0, typ: "*etree.Element"},
+	"M:*etree.Element.Parent":         {tmpl: "(parent_of path)", nargs: 0, typ: "etree.pref"},
+	// builders
+	"uuid.NewV4":            {tmpl: "new_id", nargs: 0, typ: "uuid.UUID", param: "(new_id : string)"},
+	"M:uuid.UUID.String":    {tmpl: "%s", use: []int{-1}, nargs: 0, typ: "string"},
+	"etree.NewDocument":     {tmpl: "DEmpty", nargs: 0, typ: "bt.doc"},
+	"sp.SignAuthnRequest":   {tmpl: "(res_some (sign_el %s))", use: []int{0}, frozen: map[int]bool{0: true}, nargs: 1, typ: "res:*etree.Element,error"},
+	"sp.SignLogoutRequest":  {tmpl: "(res_some (sign_el %s))", use: []int{0}, frozen: map[int]bool{0: true}, nargs: 1, typ: "res:*etree.Element,error"},
+	"sp.SignLogoutResponse": {tmpl: "(res_some (sign_el %s))", use: []int{0}, frozen: map[int]bool{0: true}, nargs: 1, typ: "res:*etree.Element,error"},
+}
+
+// calls with several non-error results: the template yields res (tuple)
+type multiBind struct {
+	tmpl    string
+	use     []int
+	lits    map[int]string
+	nargs   int
+	results []string
+}
+
+var multiBinds = map[string]multiBind{
+	"parseResponse": {tmpl: "(parse_call parse_response %s)", use: []int{0}, lits: map[int]string{1: "sp.MaximumDecompressedBodySize"}, nargs: 2,
+		results: []string{"*etree.Document", "*etree.Element"}},
+}
+
+// calls that mutate one of their (pointer) arguments and return an error
+type mutBind struct {
+	mut  int               // position of the mutated argument
+	tmpl string            // for a mutated *etree.Element: template over the dereferenced element, yields res node
+	into map[string]string // for xmlUnmarshalElement: type of the target struct -> function (el, current value) -> option (res T)
+}
+
+var mutBinds = map[string]mutBind{
+	"sp.decryptAssertions": {mut: 0, tmpl: "(decrypt_call decrypt_all %s)"},
+	"xmlUnmarshalElement": {mut: 1, into: map[string]string{
+		"types.Response": "unmarshal_into_response", "types.LogoutResponse": "unmarshal_into_logout_response",
+		"saml2.LogoutRequest": "unmarshal_into_logout_request", "types.Assertion": "unmarshal_into_assertion"}},
 }
 
 // Go struct type -> Coq type of the record that models it
@@ -115,6 +252,13 @@ var typeBinds = map[string]string{
 	"saml2.ProxyRestriction":    "proxy_restriction",
 	"saml2.AssertionInfo":       "assertion_info",
 	"types.Attribute":           "attribute",
+	"types.EncryptedAssertion":  "enc_assertion",
+	"types.EncryptedKey":        "enc_key",
+	"types.EncryptionMethod":    "enc_method",
+	"tls.Certificate":           "sp_cert",
+	"etree.Element":             "node",
+	"etree.Document":            "node", // a document is represented by its root element
+	"saml2.RequestedAuthnContext": "rac",
 }
 
 // named map types: representation option (assoc list); operations of the model
@@ -137,6 +281,10 @@ var zeroBinds = map[string]string{
 	"saml2.ProxyRestriction": "zero_proxy_restriction",
 	"saml2.AssertionInfo":    "zero_assertion_info",
 	"types.Attribute":        "zero_attribute",
+	"types.Response":         "zero_response",
+	"types.LogoutResponse":   "zero_logout_response",
+	"saml2.LogoutRequest":    "zero_logout_request",
+	"types.Assertion":        "zero_assertion",
 }
 
 // error struct literals -> constructor of Base.err, argument order, fields that must have a fixed value
@@ -158,6 +306,7 @@ var errBinds = map[string]errBind{
 var ifaceBinds = map[string]string{
 	"dsig.X509KeyStore": "store",
 	"crypto.Signer":     "signer",
+	"hash.Hash":         "hash_id",
 }
 
 // methods of interface values, bound to model functions: result = res (tuple of the non-error results)
@@ -174,6 +323,7 @@ var methodBinds = map[string]methodBind{
 var recvModel = map[string]string{
 	"getEncryptionCert": "keycfg", "GetEncryptionCertBytes": "keycfg", "getSigningCert": "keycfg",
 	"GetSigningCertBytes": "keycfg", "getSignerCert": "keycfg", "GetEncryptionKey": "keycfg", "GetSigningKey": "keycfg",
+	"buildAuthnRequest": "bcfg", "buildLogoutRequest": "bcfg", "buildLogoutResponse": "bcfg",
 }
 
 // functions translated, callees first
@@ -199,6 +349,13 @@ var funcList = []string{
 }
 
 // ---------- translator ----------
+
+// closInfo: the handler of an NSFindIterate call being translated
+type closInfo struct {
+	state []*varInfo  // the mutable variables of the enclosing function: the state threaded through the traversal
+	start *ast.Object // the variable holding the element the traversal starts from
+	el    *ast.Object // the handler's element parameter
+}
 
 type unsupported struct{ msg string }
 
@@ -246,6 +403,15 @@ type xlat struct {
 	results    []string // result types of the function being translated
 	externs    map[string]bool
 	localTypes map[string]map[string]bool
+	build       bool                         // builder unit: *etree.Element values are handles into the tree under construction
+	bt          *varInfo                     // builder unit: the tree under construction (threaded like a mutable local)
+	btInit      bool
+	recvCur     string                       // receiver model of the function being translated
+	needParams  map[string]bool
+	closures    map[*ast.Object]*ast.FuncLit // function literals bound to local names (handlers of NSFindIterate)
+	clos        *closInfo                    // set while the body of a handler is translated
+	constPrefix string // "c_" for package saml2, "t_" for package types
+	noNow       bool   // the unit's functions do not read a clock: no [now] parameter
 }
 
 func qualify(t, pkg string, local map[string]bool) string {
@@ -324,6 +490,8 @@ func coqOf(t string) (string, bool) {
 		return "bool", true
 	case t == "[]string":
 		return "list string", true
+	case opaqueTypes[t] != "":
+		return opaqueTypes[t], true
 	case t == "*rsa.PrivateKey":
 		return "signer", true // only as a result of GetKeyPair, never nil beside a nil error
 	case ifaceBinds[t] != "":
@@ -352,12 +520,55 @@ func tupleOf(vs []*varInfo) string {
 	return "(" + strings.Join(n, ", ") + ")"
 }
 
-func patOf(vs []*varInfo) string {
+func coqOfVar(v *varInfo) (string, bool) {
+	t := v.typ
+	if v.valPtr {
+		t = strings.TrimPrefix(t, "*")
+	}
+	switch t {
+	case "error":
+		return "option err", true
+	case "time.Time":
+		return "instant", true
+	}
+	return coqOf(t)
+}
+
+// letPat: the untyped pattern of a let
+func letPat(vs []*varInfo) string {
 	switch len(vs) {
 	case 0:
 		return "_"
 	case 1:
 		return vs[0].coq
+	}
+	return "'" + tupleOf(vs)
+}
+
+// patOf: the binder for the state handed over by a statement; typed when every variable's representation is known
+// (a statement all of whose paths return leaves the state type otherwise undetermined)
+func patOf(vs []*varInfo) string {
+	var ts []string
+	typed := true
+	for _, v := range vs {
+		t, ok := coqOfVar(v)
+		if !ok {
+			typed = false
+			break
+		}
+		ts = append(ts, "("+t+")")
+	}
+	switch len(vs) {
+	case 0:
+		return "(_ : unit)"
+	case 1:
+		if typed {
+			return "(" + vs[0].coq + " : " + ts[0] + ")"
+		}
+		return vs[0].coq
+	}
+	if typed {
+		return "'(" + tupleOf(vs) + " : " + strings.Join(ts, " * ") + ")"
 	}
 	return "'" + tupleOf(vs)
 }
@@ -410,6 +621,19 @@ func (x *xlat) analyse(body *ast.BlockStmt) {
 			}
 		case *ast.IncDecStmt:
 			mark(s.X, true)
+		case *ast.ExprStmt:
+			if c, ok := s.X.(*ast.CallExpr); ok {
+				if sel, ok := c.Fun.(*ast.SelectorExpr); ok && sel.Sel.Name == "CryptBlocks" && len(c.Args) == 2 {
+					mark(c.Args[0], true)
+				}
+				if sel, ok := c.Fun.(*ast.SelectorExpr); ok && sel.Sel.Name == "SetRoot" {
+					mark(sel.X, true)
+				}
+			}
+		case *ast.CallExpr:
+			if mb, ok := mutBinds[exprString(s.Fun)]; ok && mb.mut < len(s.Args) {
+				mark(s.Args[mb.mut], false)
+			}
 		}
 		return true
 	})
@@ -427,7 +651,7 @@ type ex struct {
 func (x *xlat) constIdent(name string) (ex, bool) {
 	if v, ok := x.consts[name]; ok {
 		if v.isStr {
-			return ex{term: "c_" + name, typ: "string"}, true
+			return ex{term: x.constPrefix + name, typ: "string"}, true
 		}
 		return ex{term: fmt.Sprintf("(%d)%%Z", v.z), typ: "int"}, true
 	}
@@ -481,10 +705,18 @@ func (x *xlat) expr(e ast.Expr) ex {
 				if v, ok := x.tconsts[n.Sel.Name]; ok && v.isStr {
 					return ex{term: "t_" + n.Sel.Name, typ: "string"}
 				}
+			case "dsig":
+				if n.Sel.Name == "ErrMissingSignature" {
+					return ex{term: "(Some EMissingSignature)", typ: "error"}
+				}
 			}
 			unsup(n, "qualified identifier %s.%s", id.Name, n.Sel.Name)
 		}
 		b := x.expr(n.X)
+		if b.typ == "etree.pref" && n.Sel.Name == "Tag" {
+			q := x.freshName("q")
+			return ex{pres: append(append([]pre{}, b.pres...), pre{"opt", q, "(pref_tag " + b.term + ")"}), term: q, typ: "string"}
+		}
 		st := strings.TrimPrefix(b.typ, "*")
 		fields, ok := x.structs[st]
 		if !ok {
@@ -494,7 +726,10 @@ func (x *xlat) expr(e ast.Expr) ex {
 		if !ok {
 			unsup(n, "no field %s in %s", n.Sel.Name, st)
 		}
-		fb, ok := fieldBinds[st+"."+n.Sel.Name]
+		fb, ok := fieldBindsFor[st+"."+n.Sel.Name+"@"+x.recvCur]
+		if !ok {
+			fb, ok = fieldBinds[st+"."+n.Sel.Name]
+		}
 		if !ok {
 			unsup(n, "field %s.%s has no model binding", st, n.Sel.Name)
 		}
@@ -515,6 +750,16 @@ func (x *xlat) expr(e ast.Expr) ex {
 			term = "(Some " + term + ")"
 		}
 		return ex{pres: pres, term: term, typ: ft}
+	case *ast.StarExpr:
+		b := x.expr(n.X)
+		if !strings.HasPrefix(b.typ, "*") {
+			unsup(n, "dereference of %s", b.typ)
+		}
+		if b.valPtr {
+			return ex{pres: b.pres, term: b.term, typ: b.typ[1:]}
+		}
+		p := x.freshName("p")
+		return ex{pres: append(append([]pre{}, b.pres...), pre{"opt", p, b.term}), term: p, typ: b.typ[1:]}
 	case *ast.UnaryExpr:
 		switch n.Op {
 		case token.NOT:
@@ -524,6 +769,14 @@ func (x *xlat) expr(e ast.Expr) ex {
 			if cl, ok := n.X.(*ast.CompositeLit); ok {
 				c := x.expr(cl)
 				return ex{pres: c.pres, term: c.term, typ: "*" + c.typ, valPtr: true}
+			}
+			// address of a field of a struct: the translated code only reads through it (no aliasing writes: storeField
+			// is only defined for local identifiers)
+			if sel, ok := n.X.(*ast.SelectorExpr); ok {
+				f := x.expr(sel)
+				if _, isStruct := x.structs[f.typ]; isStruct {
+					return ex{pres: f.pres, term: f.term, typ: "*" + f.typ, valPtr: true}
+				}
 			}
 			// address of a local struct variable handed to a translated callee (which takes the value: no aliasing)
 			if id, ok := n.X.(*ast.Ident); ok && id.Obj != nil {
@@ -538,12 +791,34 @@ func (x *xlat) expr(e ast.Expr) ex {
 	case *ast.IndexExpr:
 		b := x.expr(n.X)
 		i := x.expr(n.Index)
+		if (b.typ == "[]byte" || b.typ == "string") && i.typ == "int" {
+			name := x.freshName("x")
+			pres := append(append(append([]pre{}, b.pres...), i.pres...), pre{"opt", name, "(zindex_str " + b.term + " " + i.term + ")"})
+			return ex{pres: pres, term: name, typ: "byte"}
+		}
 		if strings.HasPrefix(b.typ, "[]") && i.typ == "int" {
 			name := x.freshName("x")
 			pres := append(append(append([]pre{}, b.pres...), i.pres...), pre{"opt", name, "(zindex " + b.term + " " + i.term + ")"})
 			return ex{pres: pres, term: name, typ: b.typ[2:]}
 		}
 		unsup(n, "index into %s", b.typ)
+	case *ast.SliceExpr:
+		// s[lo:], s[:hi] on []byte (the model checks against len(s): see the note at Decrypt.slice_to)
+		b := x.expr(n.X)
+		if b.typ != "[]byte" || n.Slice3 || (n.Low != nil) == (n.High != nil) {
+			unsup(n, "slice expression form on %s", b.typ)
+		}
+		fn, bound := "zslice_from", n.Low
+		if n.High != nil {
+			fn, bound = "zslice_to", n.High
+		}
+		i := x.expr(bound)
+		if i.typ != "int" {
+			unsup(n, "slice bound of type %s", i.typ)
+		}
+		name := x.freshName("x")
+		pres := append(append(append([]pre{}, b.pres...), i.pres...), pre{"opt", name, "(" + fn + " " + b.term + " " + i.term + ")"})
+		return ex{pres: pres, term: name, typ: "[]byte"}
 	case *ast.BinaryExpr:
 		return x.binary(n)
 	case *ast.CompositeLit:
@@ -584,6 +859,26 @@ func (x *xlat) binary(n *ast.BinaryExpr) ex {
 		pres := append(append([]pre{}, a.pres...), b.pres...)
 		var t string
 		switch {
+		case (a.typ == "etree.pref") != (b.typ == "etree.pref"):
+			o, pr := a, b
+			oe := n.X
+			if a.typ == "etree.pref" {
+				o, pr, oe = b, a, n.Y
+			}
+			if o.typ == "nil" {
+				t = "(pref_is_nil " + pr.term + ")"
+			} else if id, ok := oe.(*ast.Ident); ok && x.clos != nil && id.Obj != nil && id.Obj == x.clos.start {
+				// identity of the parent pointer with the element the traversal started from
+				t = "(pref_is_start " + pr.term + ")"
+			} else {
+				unsup(n, "comparison of a parent pointer with %s", exprString(oe))
+			}
+		case a.typ == "error" && b.typ == "error" && (a.term == "(Some EMissingSignature)" || b.term == "(Some EMissingSignature)"):
+			o := a
+			if a.term == "(Some EMissingSignature)" {
+				o = b
+			}
+			t = "(is_missing_signature " + o.term + ")"
 		case a.typ == "nil" || b.typ == "nil":
 			o := a
 			if a.typ == "nil" {
@@ -626,6 +921,18 @@ func (x *xlat) binary(n *ast.BinaryExpr) ex {
 		}
 		if a.typ == "int" && b.typ == "int" {
 			return ex{pres: pres, term: "(" + a.term + " + " + b.term + ")%Z", typ: "int"}
+		}
+	case token.SUB, token.MUL:
+		if a.typ == "int" && b.typ == "int" {
+			op := map[token.Token]string{token.SUB: "-", token.MUL: "*"}[n.Op]
+			return ex{pres: append(append([]pre{}, a.pres...), b.pres...), term: "(" + a.term + " " + op + " " + b.term + ")%Z", typ: "int"}
+		}
+	case token.REM:
+		// Go's % truncates towards zero (Z.rem); a zero divisor panics
+		if a.typ == "int" && b.typ == "int" {
+			name := x.freshName("m")
+			pres := append(append(append([]pre{}, a.pres...), b.pres...), pre{"opt", name, "(zrem " + a.term + " " + b.term + ")"})
+			return ex{pres: pres, term: name, typ: "int"}
 		}
 	}
 	unsup(n, "binary %v on %s, %s", n.Op, a.typ, b.typ)
@@ -731,10 +1038,13 @@ func (x *xlat) coerce(n ast.Node, v ex, to string) string {
 		if isPtr(to) || to == "error" {
 			return "None"
 		}
-		if strings.HasPrefix(to, "[]") {
-			return zeroOf(n, to) // a nil slice and an empty one are the same value in the model
+		if strings.HasPrefix(to, "[]") || opaqueTypes[to] == "string" {
+			return zeroOf(n, to) // a nil slice and an empty one are the same value in the model; a nil handle beside an error is dropped
 		}
 		unsup(n, "nil used as %s", to)
+	}
+	if v.typ == "bt.doc" && to == "*etree.Document" && x.bt != nil {
+		return "(doc_root " + x.bt.coq + " " + v.term + ")"
 	}
 	if to == "crypto.Signer" && v.typ == "*rsa.PrivateKey" {
 		return "(Some " + v.term + ")"
@@ -765,6 +1075,15 @@ func (x *xlat) call(n *ast.CallExpr) ex {
 				}
 			}
 			unsup(n, "make")
+		case "int":
+			a := x.expr(n.Args[0])
+			if a.typ == "byte" {
+				return ex{pres: a.pres, term: "(Z.of_N (N_of_ascii " + a.term + "))", typ: "int"}
+			}
+			if a.typ == "int" {
+				return a
+			}
+			unsup(n, "conversion of %s to int", a.typ)
 		case "string":
 			a := x.expr(n.Args[0])
 			if a.typ != "string" {
@@ -780,7 +1099,44 @@ func (x *xlat) call(n *ast.CallExpr) ex {
 			return ex{pres: append(append([]pre{}, a.pres...), b.pres...), term: "(" + a.term + " ++ [" + b.term + "])", typ: a.typ}
 		}
 	}
+	if r, ok := x.externCall(n); ok {
+		return r
+	}
 	if sel, ok := n.Fun.(*ast.SelectorExpr); ok {
+		// method of a local struct value whose translation exists (other receiver types than the SP)
+		if id, ok := sel.X.(*ast.Ident); ok && id.Obj != nil {
+			if vi, ok := x.locals[id.Obj]; ok {
+				st := strings.TrimPrefix(vi.typ, "*")
+				if strings.HasPrefix(st, x.pkg+".") && st != x.pkg+".SAMLServiceProvider" {
+					key := strings.TrimPrefix(st, x.pkg+".") + "." + sel.Sel.Name
+					if kind, ok := x.done[key]; ok {
+						recv := x.expr(sel.X)
+						pres := append([]pre{}, recv.pres...)
+						base := recv.term
+						if isPtr(recv.typ) && !recv.valPtr {
+							p := x.freshName("p")
+							pres = append(pres, pre{"opt", p, recv.term})
+							base = p
+						}
+						args := []string{base}
+						if !x.noNow {
+							args = append(args, "now")
+						}
+						for _, a := range n.Args {
+							v := x.expr(a)
+							pres = append(pres, v.pres...)
+							args = append(args, v.term)
+						}
+						name := x.freshName("r")
+						pres = append(pres, pre{"pm", name, "(G_" + strings.ReplaceAll(key, ".", "_") + " " + strings.Join(args, " ") + ")"})
+						if kind == "error" {
+							return ex{pres: pres, term: "(err_of_res " + name + ")", typ: "error"}
+						}
+						return ex{pres: pres, term: name, typ: "res:" + kind}
+					}
+				}
+			}
+		}
 		// method of the receiver that is itself translated
 		if id, ok := sel.X.(*ast.Ident); ok && id.Obj != nil {
 			if vi, ok := x.locals[id.Obj]; ok && vi.typ == "*"+x.pkg+".SAMLServiceProvider" {
@@ -821,7 +1177,12 @@ func (x *xlat) call(n *ast.CallExpr) ex {
 				}
 				f := map[string]string{"Before": "ibefore", "After": "iafter"}[sel.Sel.Name]
 				return ex{pres: append(append([]pre{}, recv.pres...), a.pres...), term: "(" + f + " " + recv.term + " " + a.term + ")", typ: "bool"}
+			case "UTC":
+				return recv // an instant has no zone
 			case "Format":
+				if c, ok := evalConst(n.Args[0], x.consts); ok && c.isStr && c.s == "2006-01-02T15:04:05Z" {
+					return ex{pres: recv.pres, term: "(format_utc_seconds " + recv.term + ")", typ: "string"}
+				}
 				if exprString(n.Args[0]) != "time.RFC3339" {
 					unsup(n, "time layout %s", exprString(n.Args[0]))
 				}
@@ -831,6 +1192,108 @@ func (x *xlat) call(n *ast.CallExpr) ex {
 	}
 	unsup(n, "call %s", exprString(n.Fun))
 	return ex{}
+}
+
+// externCall: calls bound by callBinds (functions of other packages, methods of opaque handles, fmt.Errorf)
+func (x *xlat) externCall(n *ast.CallExpr) (ex, bool) {
+	name := exprString(n.Fun)
+	if name == "fmt.Errorf" {
+		// the message is not modelled: the error is EOther <format string>; the arguments are evaluated (they can panic)
+		if len(n.Args) < 1 {
+			unsup(n, "fmt.Errorf without format")
+		}
+		lit, ok := n.Args[0].(*ast.BasicLit)
+		if !ok || lit.Kind != token.STRING {
+			unsup(n, "fmt.Errorf with a computed format")
+		}
+		f, _ := strconv.Unquote(lit.Value)
+		var pres []pre
+		for _, a := range n.Args[1:] {
+			pres = append(pres, x.expr(a).pres...)
+		}
+		return ex{pres: pres, term: "(Some (EOther " + coqStr(f) + "))", typ: "error"}, true
+	}
+	var cb callBind
+	var recv *ex
+	found := false
+	if b, ok := callBinds[name]; ok {
+		if id, isId := n.Fun.(*ast.Ident); !isId || id.Obj == nil || x.locals[id.Obj] == nil {
+			cb, found = b, true
+		}
+	}
+	if !found {
+		if sel, ok := n.Fun.(*ast.SelectorExpr); ok {
+			if id, ok := sel.X.(*ast.Ident); ok && id.Obj != nil && x.locals[id.Obj] != nil {
+				if b, ok := callBinds["M:"+x.locals[id.Obj].typ+"."+sel.Sel.Name]; ok {
+					r := x.expr(sel.X)
+					cb, recv, found = b, &r, true
+				}
+			}
+		}
+	}
+	if !found {
+		return ex{}, false
+	}
+	if name != "" && strings.HasSuffix(name, ".Parent") && recv != nil {
+		id := n.Fun.(*ast.SelectorExpr).X.(*ast.Ident)
+		if x.clos == nil || id.Obj != x.clos.el {
+			unsup(n, "Parent() of an element other than the one an NSFindIterate handler is called for")
+		}
+	}
+	if len(n.Args) != cb.nargs {
+		unsup(n, "%s: %d arguments", name, len(n.Args))
+	}
+	for i, want := range cb.lits {
+		if got := exprString(n.Args[i]); got != want {
+			if bl, ok := n.Args[i].(*ast.BasicLit); !ok || bl.Value != want {
+				unsup(n, "%s: argument %d is %s, the binding needs %s", name, i, got, want)
+			}
+		}
+	}
+	var pres []pre
+	var parts []interface{}
+	for _, i := range cb.use {
+		var v ex
+		if i < 0 {
+			v = *recv
+		} else {
+			v = x.expr(n.Args[i])
+		}
+		pres = append(pres, v.pres...)
+		t := v.term
+		if cb.frozen[i] {
+			if v.typ != "bt.handle" || x.bt == nil {
+				unsup(n, "%s: argument %d is not an element under construction", name, i)
+			}
+			f := x.freshName("f")
+			pres = append(pres, pre{"opt", f, "(node_at " + x.bt.coq + " " + t + ")"})
+			parts = append(parts, f)
+			continue
+		}
+		if cb.deref[i] {
+			if !v.valPtr {
+				p := x.freshName("p")
+				pres = append(pres, pre{"opt", p, t})
+				t = p
+			}
+		} else if isPtr(v.typ) && v.valPtr {
+			t = "(Some " + t + ")"
+		}
+		parts = append(parts, t)
+	}
+	term := fmt.Sprintf(cb.tmpl, parts...)
+	if cb.param != "" {
+		if x.needParams == nil {
+			x.needParams = map[string]bool{}
+		}
+		x.needParams[cb.param] = true
+	}
+	if cb.opt {
+		q := x.freshName("q")
+		pres = append(pres, pre{"opt", q, term})
+		term = q
+	}
+	return ex{pres: pres, term: term, typ: cb.typ, valPtr: cb.val}, true
 }
 
 // ---------- statements ----------
@@ -900,6 +1363,9 @@ func (x *xlat) block(list []ast.Stmt, cur, out, loop []*varInfo, inLoop bool) st
 		} else {
 			t := x.qualifyRoot(typeStr(vs.Type))
 			v = ex{typ: t, term: zeroOf(n, t)}
+			if ct, ok := coqOf(t); ok && v.term == "None" {
+				v.term = "(None : " + ct + ")"
+			}
 		}
 		vi := x.declare(vs.Names[0], v.typ, false)
 		return wrapPres(v.pres, fmt.Sprintf("let %s := %s in %s", vi.coq, v.term, cont(x.mutVars(cur, vs.Names[0], vi))), "CPanic")
@@ -917,6 +1383,11 @@ func (x *xlat) block(list []ast.Stmt, cur, out, loop []*varInfo, inLoop bool) st
 	case *ast.AssignStmt:
 		return x.assign(n, cur, cont)
 	case *ast.IfStmt:
+		if init, ok := n.Init.(*ast.AssignStmt); ok && len(init.Rhs) == 1 {
+			if call, ok := init.Rhs[0].(*ast.CallExpr); ok && exprString(call.Fun) == "etreeutils.NSFindIterate" {
+				return x.findIterate(n, init, call, cur, out, loop, inLoop, cont)
+			}
+		}
 		if n.Init != nil {
 			inner := &ast.IfStmt{If: n.If, Cond: n.Cond, Body: n.Body, Else: n.Else}
 			return seq(x.block([]ast.Stmt{n.Init, inner}, cur, cur, loop, inLoop))
@@ -999,6 +1470,120 @@ func (x *xlat) block(list []ast.Stmt, cur, out, loop []*varInfo, inLoop bool) st
 		body := x.block(n.Body.List, cur, cur, cur, true)
 		loopT := fmt.Sprintf("for_range (fun %s %s => %s) (zrange %s) %s", vi.coq, patOf(cur), body, bound.term, tupleOf(cur))
 		return wrapPres(bound.pres, seq(loopT), "CPanic")
+	case *ast.ExprStmt:
+		// c.CryptBlocks(dst, src) on a cipher.BlockMode: dst := decrypted src (panics unless src is whole blocks)
+		if c, ok := n.X.(*ast.CallExpr); ok {
+			if sel, ok := c.Fun.(*ast.SelectorExpr); ok && sel.Sel.Name == "CryptBlocks" && len(c.Args) == 2 {
+				recv := x.expr(sel.X)
+				dst, okD := c.Args[0].(*ast.Ident)
+				if recv.typ != "cipher.BlockMode" || !okD || dst.Obj == nil || x.locals[dst.Obj] == nil || x.locals[dst.Obj].typ != "[]byte" {
+					unsup(n, "CryptBlocks form")
+				}
+				src := x.expr(c.Args[1])
+				if src.typ != "[]byte" {
+					unsup(n, "CryptBlocks source of type %s", src.typ)
+				}
+				vi := x.locals[dst.Obj]
+				q := x.freshName("q")
+				pres := append(append(append([]pre{}, recv.pres...), src.pres...), pre{"opt", q, "(cbc_crypt cbc_decrypt " + recv.term + " " + src.term + ")"})
+				return wrapPres(pres, fmt.Sprintf("let %s := %s in %s", vi.coq, q, cont(cur)), "CPanic")
+			}
+		}
+		if x.build {
+			if c, ok := n.X.(*ast.CallExpr); ok {
+				if t, ok := x.builderStmt(n, c, cur, cont); ok {
+					return t
+				}
+			}
+		}
+		unsup(n, "expression statement %s", exprString(n.X))
+	case *ast.SwitchStmt:
+		if n.Init != nil || n.Tag == nil {
+			unsup(n, "switch form")
+		}
+		x.noBreak(n.Body)
+		tag := x.expr(n.Tag)
+		if tag.typ != "string" {
+			unsup(n, "switch on %s", tag.typ)
+		}
+		var conds []string
+		var bodies [][]ast.Stmt
+		var dflt []ast.Stmt
+		for _, c := range n.Body.List {
+			cc := c.(*ast.CaseClause)
+			if cc.List == nil {
+				dflt = cc.Body
+				if dflt == nil {
+					dflt = []ast.Stmt{}
+				}
+				continue
+			}
+			var ts []string
+			for _, e := range cc.List {
+				v := x.expr(e)
+				if v.typ != "string" || len(v.pres) != 0 {
+					unsup(e, "case expression")
+				}
+				ts = append(ts, "("+tag.term+" =?s "+v.term+")")
+			}
+			conds = append(conds, "("+strings.Join(ts, " || ")+")")
+			bodies = append(bodies, cc.Body)
+		}
+		return wrapPres(tag.pres, seq(x.chain(conds, bodies, nil, dflt, cur, loop, inLoop)), "CPanic")
+	case *ast.TypeSwitchStmt:
+		if n.Init != nil {
+			unsup(n, "type switch form")
+		}
+		x.noBreak(n.Body)
+		var bound *ast.Ident
+		var ta *ast.TypeAssertExpr
+		switch a := n.Assign.(type) {
+		case *ast.AssignStmt:
+			bound, _ = a.Lhs[0].(*ast.Ident)
+			ta, _ = a.Rhs[0].(*ast.TypeAssertExpr)
+		case *ast.ExprStmt:
+			ta, _ = a.X.(*ast.TypeAssertExpr)
+		}
+		if ta == nil {
+			unsup(n, "type switch form")
+		}
+		tag := x.expr(ta.X)
+		tb, ok := typeSwitchBinds[tag.typ]
+		if !ok {
+			unsup(n, "type switch on %s", tag.typ)
+		}
+		var conds []string
+		var bodies [][]ast.Stmt
+		var binds []string
+		var dflt []ast.Stmt
+		for _, c := range n.Body.List {
+			cc := c.(*ast.CaseClause)
+			if cc.List == nil {
+				dflt = cc.Body
+				if dflt == nil {
+					dflt = []ast.Stmt{}
+				}
+				continue
+			}
+			var ts []string
+			ct := ""
+			for _, e := range cc.List {
+				ct = typeStr(e)
+				tmpl, ok := tb[ct]
+				if !ok {
+					unsup(e, "type switch case %s on %s", ct, tag.typ)
+				}
+				ts = append(ts, fmt.Sprintf(tmpl, tag.term))
+			}
+			if len(cc.List) != 1 {
+				ct = ""
+			}
+			conds = append(conds, "("+strings.Join(ts, " || ")+")")
+			bodies = append(bodies, cc.Body)
+			binds = append(binds, ct)
+		}
+		_ = bound // the bound variable is only handed to bound externs (checked there by name); it has no model value
+		return wrapPres(tag.pres, seq(x.chain(conds, bodies, binds, dflt, cur, loop, inLoop)), "CPanic")
 	case *ast.RangeStmt:
 		if n.Tok != token.DEFINE || n.Value == nil {
 			unsup(n, "range form")
@@ -1020,6 +1605,33 @@ func (x *xlat) block(list []ast.Stmt, cur, out, loop []*varInfo, inLoop bool) st
 	return ""
 }
 
+// chain: the clauses of a switch as an if-chain; every clause body is a block handing [cur] to the statement after the switch
+func (x *xlat) chain(conds []string, bodies [][]ast.Stmt, binds []string, dflt []ast.Stmt, cur, loop []*varInfo, inLoop bool) string {
+	if len(conds) == 0 {
+		if dflt == nil {
+			return "CNext " + tupleOf(cur)
+		}
+		return x.block(dflt, cur, cur, loop, inLoop)
+	}
+	return fmt.Sprintf("if %s then %s else %s", conds[0], x.block(bodies[0], cur, cur, loop, inLoop),
+		x.chain(conds[1:], bodies[1:], nil, dflt, cur, loop, inLoop))
+}
+
+// noBreak rejects break / fallthrough / goto inside a switch body (they would need the switch as a target)
+func (x *xlat) noBreak(b *ast.BlockStmt) {
+	ast.Inspect(b, func(m ast.Node) bool {
+		switch t := m.(type) {
+		case *ast.ForStmt, *ast.RangeStmt, *ast.FuncLit:
+			return false
+		case *ast.BranchStmt:
+			if t.Tok != token.CONTINUE {
+				unsup(t, "%v inside a switch", t.Tok)
+			}
+		}
+		return true
+	})
+}
+
 func zeroOf(n ast.Node, t string) string {
 	switch {
 	case t == "string" || t == "[]byte":
@@ -1030,6 +1642,8 @@ func zeroOf(n ast.Node, t string) string {
 		return "0%Z"
 	case t == "error" || isPtr(t):
 		return "None"
+	case opaqueTypes[t] == "string":
+		return `""`
 	case strings.HasPrefix(t, "[]"):
 		return "[]"
 	}
@@ -1064,6 +1678,125 @@ func (x *xlat) assign(n *ast.AssignStmt, cur []*varInfo, cont func([]*varInfo) s
 		}
 		vi := x.declare(id, typ, valPtr)
 		return vi, x.mutVars(c, id, vi)
+	}
+	if x.build && len(n.Lhs) == 1 && len(n.Rhs) == 1 {
+		if id, ok := n.Lhs[0].(*ast.Ident); ok {
+			// root := &etree.Element{Space: s, Tag: t}: the (single) tree under construction
+			if u, ok := n.Rhs[0].(*ast.UnaryExpr); ok && u.Op == token.AND {
+				if cl, ok := u.X.(*ast.CompositeLit); ok && typeStr(cl.Type) == "etree.Element" {
+					if x.btInit || n.Tok != token.DEFINE {
+						unsup(n, "a second root element in one builder")
+					}
+					var sp, tg ex
+					for _, el := range cl.Elts {
+						kv, ok := el.(*ast.KeyValueExpr)
+						if !ok {
+							unsup(n, "etree.Element literal")
+						}
+						switch kv.Key.(*ast.Ident).Name {
+						case "Space":
+							sp = x.expr(kv.Value)
+						case "Tag":
+							tg = x.expr(kv.Value)
+						default:
+							unsup(n, "etree.Element literal sets %s", kv.Key.(*ast.Ident).Name)
+						}
+					}
+					if sp.typ != "string" || tg.typ != "string" || len(sp.pres)+len(tg.pres) != 0 {
+						unsup(n, "etree.Element literal needs Space and Tag")
+					}
+					x.btInit = true
+					vi, c := bindIdent(id, "bt.handle", false, cur)
+					return fmt.Sprintf("let %s := (bt_new %s %s) in let %s := ([] : list nat) in %s", x.bt.coq, sp.term, tg.term, vi.coq, cont(c))
+				}
+			}
+			// y (:)= X.CreateElement(tag)
+			if call, ok := n.Rhs[0].(*ast.CallExpr); ok {
+				if sel, ok := call.Fun.(*ast.SelectorExpr); ok && sel.Sel.Name == "CreateElement" && len(call.Args) == 1 {
+					recv := x.expr(sel.X)
+					tag := x.expr(call.Args[0])
+					if recv.typ == "bt.handle" && tag.typ == "string" {
+						q := x.freshName("q")
+						pres := append(append(append([]pre{}, recv.pres...), tag.pres...), pre{"opt", q, "(bt_create_element " + x.bt.coq + " " + recv.term + " " + tag.term + ")"})
+						vi, c := bindIdent(id, "bt.handle", false, cur)
+						return wrapPres(pres, fmt.Sprintf("let %s := (fst %s) in let %s := (snd %s) in %s", x.bt.coq, q, vi.coq, q, cont(c)), "CPanic")
+					}
+				}
+			}
+		}
+	}
+	// h := func(ctx etreeutils.NSContext, el *etree.Element) error { ... }: remembered; translated where NSFindIterate uses it
+	if len(n.Lhs) == 1 && len(n.Rhs) == 1 && n.Tok == token.DEFINE {
+		if fl, ok := n.Rhs[0].(*ast.FuncLit); ok {
+			id, ok := n.Lhs[0].(*ast.Ident)
+			if !ok || id.Obj == nil || x.reassign[id.Obj] {
+				unsup(n, "function literal binding")
+			}
+			if x.closures == nil {
+				x.closures = map[*ast.Object]*ast.FuncLit{}
+			}
+			x.closures[id.Obj] = fl
+			return cont(cur)
+		}
+	}
+	// err = f(.., X, ..) where f mutates the struct / element X points to
+	if len(n.Lhs) == 1 && len(n.Rhs) == 1 {
+		if call, ok := n.Rhs[0].(*ast.CallExpr); ok {
+			if mb, ok := mutBinds[exprString(call.Fun)]; ok {
+				return x.mutCall(n, call, mb, cur, cont, bindIdent)
+			}
+		}
+	}
+	// r1, .., rk, err := f(args) for a bound function with several results
+	if len(n.Rhs) == 1 && len(n.Lhs) >= 2 {
+		if call, ok := n.Rhs[0].(*ast.CallExpr); ok {
+			if mb, ok := multiBinds[exprString(call.Fun)]; ok {
+				if len(call.Args) != mb.nargs || len(n.Lhs) != len(mb.results)+1 {
+					unsup(n, "%s: arity", exprString(call.Fun))
+				}
+				for i, want := range mb.lits {
+					if got := exprString(call.Args[i]); got != want {
+						unsup(n, "%s: argument %d is %s, the binding needs %s", exprString(call.Fun), i, got, want)
+					}
+				}
+				var pres []pre
+				var parts []interface{}
+				for _, i := range mb.use {
+					v := x.expr(call.Args[i])
+					pres = append(pres, v.pres...)
+					parts = append(parts, v.term)
+				}
+				var pats []string
+				for i := range mb.results {
+					pats = append(pats, fmt.Sprintf("y%d", i))
+				}
+				r := x.freshName("r")
+				body := ""
+				c := cur
+				for i, l := range n.Lhs {
+					id, ok := l.(*ast.Ident)
+					if !ok {
+						unsup(n, "tuple assignment to non-identifiers")
+					}
+					if id.Name == "_" {
+						continue
+					}
+					var vi *varInfo
+					if i == len(mb.results) {
+						vi, c = bindIdent(id, "error", false, c)
+						body += fmt.Sprintf("let %s := (err_of_res %s) in ", vi.coq, r)
+						continue
+					}
+					vi, c = bindIdent(id, mb.results[i], false, c)
+					val := fmt.Sprintf("y%d", i)
+					if isPtr(mb.results[i]) {
+						val = "Some " + val
+					}
+					body += fmt.Sprintf("let %s := match %s with Ok %s => %s | Err _ => %s end in ", vi.coq, r, tupleTerm(pats), val, zeroOf(n, mb.results[i]))
+				}
+				return wrapPres(pres, fmt.Sprintf("let %s := %s in %s%s", r, fmt.Sprintf(mb.tmpl, parts...), body, cont(c)), "CPanic")
+			}
+		}
 	}
 	// r1, .., err := X.M()   for a bound interface method
 	if len(n.Rhs) == 1 && len(n.Lhs) >= 2 {
@@ -1145,6 +1878,38 @@ func (x *xlat) assign(n *ast.AssignStmt, cur []*varInfo, cont func([]*varInfo) s
 		}
 		return wrapPres(r.pres, fmt.Sprintf("let %s := %s in let %s := (err_of_res %s) in %s", va.coq, val, vb.coq, r.term, cont(c2)), "CPanic")
 	}
+	if len(n.Lhs) == len(n.Rhs) && len(n.Lhs) > 1 {
+		// a, b := e1, e2 : all right-hand sides are evaluated before any variable is bound
+		var pres []pre
+		var tmps []string
+		var vals []ex
+		for _, r := range n.Rhs {
+			v := x.expr(r)
+			if v.typ == "nil" || v.valPtr {
+				unsup(n, "parallel assignment of %s", v.typ)
+			}
+			pres = append(pres, v.pres...)
+			vals = append(vals, v)
+			tmps = append(tmps, x.freshName("t"))
+		}
+		body := ""
+		for i, v := range vals {
+			body += fmt.Sprintf("let %s := %s in ", tmps[i], v.term)
+		}
+		c := cur
+		for i, l := range n.Lhs {
+			id, ok := l.(*ast.Ident)
+			if !ok {
+				unsup(n, "parallel assignment to non-identifiers")
+			}
+			var vi *varInfo
+			vi, c = bindIdent(id, vals[i].typ, false, c)
+			if vi.coq != "_" {
+				body += fmt.Sprintf("let %s := %s in ", vi.coq, tmps[i])
+			}
+		}
+		return wrapPres(pres, body+cont(c), "CPanic")
+	}
 	if len(n.Lhs) != 1 || len(n.Rhs) != 1 {
 		unsup(n, "assignment arity")
 	}
@@ -1212,6 +1977,191 @@ func (x *xlat) assign(n *ast.AssignStmt, cur []*varInfo, cont func([]*varInfo) s
 	}
 	unsup(n, "assignment target %T", n.Lhs[0])
 	return ""
+}
+
+// mutCall: err (:)= f(args) where f mutates what its argument [mb.mut] points to
+func (x *xlat) mutCall(n *ast.AssignStmt, call *ast.CallExpr, mb mutBind, cur []*varInfo, cont func([]*varInfo) string,
+	bindIdent func(*ast.Ident, string, bool, []*varInfo) (*varInfo, []*varInfo)) string {
+	errID, ok := n.Lhs[0].(*ast.Ident)
+	if !ok || mb.mut >= len(call.Args) {
+		unsup(n, "%s: form", exprString(call.Fun))
+	}
+	tid, ok := call.Args[mb.mut].(*ast.Ident)
+	if !ok || tid.Obj == nil || x.locals[tid.Obj] == nil {
+		unsup(n, "%s: the mutated argument must be a local variable", exprString(call.Fun))
+	}
+	tv := x.locals[tid.Obj]
+	r := x.freshName("r")
+	if mb.into != nil {
+		// xmlUnmarshalElement(el, X): X is a pointer to a struct created in this function, represented by its value
+		if len(call.Args) != 2 || !tv.valPtr {
+			unsup(n, "xmlUnmarshalElement: target must be a pointer to a locally created struct")
+		}
+		fn, ok := mb.into[strings.TrimPrefix(tv.typ, "*")]
+		if !ok {
+			unsup(n, "xmlUnmarshalElement into %s", tv.typ)
+		}
+		el := x.expr(call.Args[0])
+		if el.typ != "*etree.Element" {
+			unsup(n, "xmlUnmarshalElement of %s", el.typ)
+		}
+		pres := append([]pre{}, el.pres...)
+		et := el.term
+		if !el.valPtr {
+			p := x.freshName("p")
+			pres = append(pres, pre{"opt", p, et})
+			et = p
+		}
+		pres = append(pres, pre{"opt", r, "(" + fn + " " + et + " " + tv.coq + ")"})
+		ev, c := bindIdent(errID, "error", false, cur)
+		return wrapPres(pres, fmt.Sprintf("let %s := match %s with Ok v => v | Err _ => %s end in let %s := (err_of_res %s) in %s",
+			tv.coq, r, tv.coq, ev.coq, r, cont(c)), "CPanic")
+	}
+	// a mutated *etree.Element held in a nil-able variable
+	if tv.typ != "*etree.Element" || tv.valPtr || len(call.Args) != 1 {
+		unsup(n, "%s: target form", exprString(call.Fun))
+	}
+	p := x.freshName("p")
+	pres := []pre{{"opt", p, tv.coq}}
+	ev, c := bindIdent(errID, "error", false, cur)
+	return wrapPres(pres, fmt.Sprintf("let %s := %s in let %s := match %s with Ok v => Some v | Err _ => %s end in let %s := (err_of_res %s) in %s",
+		r, fmt.Sprintf(mb.tmpl, p), tv.coq, r, tv.coq, ev.coq, r, cont(c)), "CPanic")
+}
+
+// findIterate: if err := etreeutils.NSFindIterate(START, NS, TAG, H); err != nil { ...return } [else ...]
+// The handler H (a function literal bound to a local name) is translated here, where it runs: it sees the current values of
+// the variables it captures; the mutable ones are the state threaded through the traversal.  The statement form guarantees
+// that the state after a failed traversal is never read.
+func (x *xlat) findIterate(n *ast.IfStmt, init *ast.AssignStmt, call *ast.CallExpr, cur, out, loop []*varInfo, inLoop bool, cont func([]*varInfo) string) string {
+	if len(init.Lhs) != 1 || init.Tok != token.DEFINE || len(call.Args) != 4 {
+		unsup(n, "NSFindIterate form")
+	}
+	errID, ok := init.Lhs[0].(*ast.Ident)
+	cond, ok2 := n.Cond.(*ast.BinaryExpr)
+	if !ok || !ok2 || cond.Op != token.NEQ || exprString(cond.X) != errID.Name || exprString(cond.Y) != "nil" || !terminates(n.Body) {
+		unsup(n, "NSFindIterate must be used as: if err := NSFindIterate(..); err != nil { return .. }")
+	}
+	startID, ok := call.Args[0].(*ast.Ident)
+	if !ok || startID.Obj == nil || x.locals[startID.Obj] == nil || x.locals[startID.Obj].typ != "*etree.Element" {
+		unsup(n, "NSFindIterate start element")
+	}
+	start := x.expr(startID)
+	ns := x.expr(call.Args[1])
+	tag := x.expr(call.Args[2])
+	hid, ok := call.Args[3].(*ast.Ident)
+	if !ok || hid.Obj == nil || x.closures[hid.Obj] == nil || ns.typ != "string" || tag.typ != "string" {
+		unsup(n, "NSFindIterate handler / name arguments")
+	}
+	fl := x.closures[hid.Obj]
+	ps := fl.Type.Params.List
+	if len(ps) != 2 || len(ps[0].Names) != 1 || len(ps[1].Names) != 1 || typeStr(ps[0].Type) != "etreeutils.NSContext" ||
+		typeStr(ps[1].Type) != "*etree.Element" || fl.Type.Results == nil || len(fl.Type.Results.List) != 1 || typeStr(fl.Type.Results.List[0].Type) != "error" {
+		unsup(fl, "handler signature")
+	}
+	for _, id := range []*ast.Ident{ps[0].Names[0], ps[1].Names[0]} {
+		if id.Obj != nil && x.mutable[id.Obj] {
+			unsup(fl, "handler assigns its parameter %s", id.Name)
+		}
+	}
+	pres := append(append(append([]pre{}, start.pres...), ns.pres...), tag.pres...)
+	st := start.term
+	if !start.valPtr {
+		p := x.freshName("p")
+		pres = append(pres, pre{"opt", p, st})
+		st = p
+	}
+	// the handler body, as a function of (ctx, path, element, state)
+	savedRes, savedClos := x.results, x.clos
+	x.results = []string{"error"}
+	x.clos = &closInfo{state: cur, start: startID.Obj, el: ps[1].Names[0].Obj}
+	cv := x.declare(ps[0].Names[0], "etreeutils.NSContext", false)
+	ev := x.declare(ps[1].Names[0], "*etree.Element", true)
+	body := x.block(fl.Body.List, cur, nil, nil, false)
+	x.results, x.clos = savedRes, savedClos
+	handler := fmt.Sprintf("(fun (%s : nsctx) (path : list nat) (%s : node) %s => run_fn (%s))", cv.coq, ev.coq, patOf(cur), body)
+	r := x.freshName("r")
+	errV := x.declare(errID, "error", false)
+	inner := &ast.IfStmt{If: n.If, Cond: n.Cond, Body: n.Body, Else: n.Else}
+	rest := x.block([]ast.Stmt{inner}, cur, cur, loop, inLoop)
+	k := fmt.Sprintf("match (find_iterate_pm %s %s %s %s %s) with PPanic => CPanic | PVal %s => let %s := match %s with Ok s => s | Err _ => %s end in let %s := (err_of_res %s) in bindc (%s) (fun %s => %s) end",
+		ns.term, tag.term, handler, st, tupleOf(cur), r, letPat(cur), r, tupleOf(cur), errV.coq, r, rest, patOf(cur), cont(cur))
+	return wrapPres(pres, k, "CPanic")
+}
+
+// builderStmt: X.CreateAttr(k, v) / X.SetText(v) / X.CreateElement(tag).SetText(v) / doc.SetRoot(E) as statements that update
+// the tree under construction (or the document variable)
+func (x *xlat) builderStmt(n ast.Stmt, c *ast.CallExpr, cur []*varInfo, cont func([]*varInfo) string) (string, bool) {
+	sel, ok := c.Fun.(*ast.SelectorExpr)
+	if !ok {
+		return "", false
+	}
+	bt := x.bt.coq
+	switch sel.Sel.Name {
+	case "CreateAttr":
+		recv := x.expr(sel.X)
+		if recv.typ != "bt.handle" || len(c.Args) != 2 {
+			return "", false
+		}
+		k, v := x.expr(c.Args[0]), x.expr(c.Args[1])
+		if k.typ != "string" || v.typ != "string" {
+			unsup(n, "CreateAttr arguments of type %s, %s", k.typ, v.typ)
+		}
+		q := x.freshName("q")
+		pres := append(append(append(append([]pre{}, recv.pres...), k.pres...), v.pres...), pre{"opt", q, fmt.Sprintf("(bt_create_attr %s %s %s %s)", bt, recv.term, k.term, v.term)})
+		return wrapPres(pres, fmt.Sprintf("let %s := %s in %s", bt, q, cont(cur)), "CPanic"), true
+	case "SetText":
+		if len(c.Args) != 1 {
+			return "", false
+		}
+		v := x.expr(c.Args[0])
+		if v.typ != "string" {
+			unsup(n, "SetText argument of type %s", v.typ)
+		}
+		// X.CreateElement(tag).SetText(v)
+		if inner, ok := sel.X.(*ast.CallExpr); ok {
+			if isel, ok := inner.Fun.(*ast.SelectorExpr); ok && isel.Sel.Name == "CreateElement" && len(inner.Args) == 1 {
+				recv := x.expr(isel.X)
+				tag := x.expr(inner.Args[0])
+				if recv.typ != "bt.handle" || tag.typ != "string" {
+					return "", false
+				}
+				q1, q2 := x.freshName("q"), x.freshName("q")
+				pres := append(append(append([]pre{}, recv.pres...), tag.pres...), v.pres...)
+				pres = append(pres, pre{"opt", q1, fmt.Sprintf("(bt_create_element %s %s %s)", bt, recv.term, tag.term)})
+				pres = append(pres, pre{"opt", q2, fmt.Sprintf("(bt_set_text (fst %s) (snd %s) %s)", q1, q1, v.term)})
+				return wrapPres(pres, fmt.Sprintf("let %s := %s in %s", bt, q2, cont(cur)), "CPanic"), true
+			}
+		}
+		recv := x.expr(sel.X)
+		if recv.typ != "bt.handle" {
+			return "", false
+		}
+		q := x.freshName("q")
+		pres := append(append(append([]pre{}, recv.pres...), v.pres...), pre{"opt", q, fmt.Sprintf("(bt_set_text %s %s %s)", bt, recv.term, v.term)})
+		return wrapPres(pres, fmt.Sprintf("let %s := %s in %s", bt, q, cont(cur)), "CPanic"), true
+	case "SetRoot":
+		id, ok := sel.X.(*ast.Ident)
+		if !ok || id.Obj == nil || x.locals[id.Obj] == nil || x.locals[id.Obj].typ != "bt.doc" || len(c.Args) != 1 {
+			return "", false
+		}
+		dv := x.locals[id.Obj]
+		a := x.expr(c.Args[0])
+		switch {
+		case a.typ == "bt.handle":
+			return wrapPres(a.pres, fmt.Sprintf("let %s := (DPath %s) in %s", dv.coq, a.term, cont(cur)), "CPanic"), true
+		case a.typ == "*etree.Element":
+			pres := append([]pre{}, a.pres...)
+			t := a.term
+			if !a.valPtr {
+				p := x.freshName("p")
+				pres = append(pres, pre{"opt", p, t})
+				t = p
+			}
+			return wrapPres(pres, fmt.Sprintf("let %s := (DNode %s) in %s", dv.coq, t, cont(cur)), "CPanic"), true
+		}
+		unsup(n, "SetRoot of %s", a.typ)
+	}
+	return "", false
 }
 
 // storeField: vi.f = v
@@ -1283,6 +2233,23 @@ func tupleTerm(parts []string) string {
 }
 
 func (x *xlat) ret(n *ast.ReturnStmt) string {
+	if x.clos != nil {
+		// return from an NSFindIterate handler: nil continues the traversal with the current state
+		if len(n.Results) != 1 {
+			unsup(n, "return arity in a handler")
+		}
+		e := x.expr(n.Results[0])
+		okT := "CRet (Ok " + tupleOf(x.clos.state) + ")"
+		switch {
+		case e.typ == "nil":
+			return okT
+		case e.typ != "error":
+			unsup(n, "returning %s as error", e.typ)
+		case strings.HasPrefix(e.term, "(Some ") && strings.HasSuffix(e.term, ")"):
+			return wrapPres(e.pres, "CRet (Err "+e.term[6:len(e.term)-1]+")", "CPanic")
+		}
+		return wrapPres(e.pres, "match "+e.term+" with Some e => CRet (Err e) | None => "+okT+" end", "CPanic")
+	}
 	hasErr := len(x.results) > 0 && x.results[len(x.results)-1] == "error"
 	vals := x.results
 	if hasErr {
@@ -1369,6 +2336,15 @@ func (x *xlat) function(out *bytes.Buffer, name string) {
 		x.analyse(fd.Body)
 		var params []string
 		x.externs = map[string]bool{}
+		x.needParams = map[string]bool{}
+		x.recvCur = recvModel[name]
+		x.closures = nil
+		x.btInit = false
+		x.bt = nil
+		if x.build {
+			x.bt = &varInfo{coq: "bt", typ: "bt.tree"}
+			x.used["bt"] = true
+		}
 		bindParam := func(id *ast.Ident, t ast.Expr) {
 			gt := x.qualifyRoot(typeStr(t))
 			if id.Obj != nil && x.mutable[id.Obj] {
@@ -1379,6 +2355,8 @@ func (x *xlat) function(out *bytes.Buffer, name string) {
 			switch {
 			case len(params) == 0 && recvModel[name] != "":
 				ct, valPtr = recvModel[name], true
+			case nilableParams[gt] && typeBinds[gt[1:]] != "":
+				ct = "option " + typeBinds[gt[1:]] // nil is a possible argument: dereferences are guarded
 			case strings.HasPrefix(gt, "*") && typeBinds[gt[1:]] != "":
 				ct, valPtr = typeBinds[gt[1:]], true // non-nil by precondition
 			case gt == "string":
@@ -1399,7 +2377,9 @@ func (x *xlat) function(out *bytes.Buffer, name string) {
 			unsup(fd, "receiver")
 		}
 		bindParam(fd.Recv.List[0].Names[0], fd.Recv.List[0].Type)
-		params = append(params, "(now : instant)")
+		if !x.noNow {
+			params = append(params, "(now : instant)")
+		}
 		for _, f := range fd.Type.Params.List {
 			for _, id := range f.Names {
 				bindParam(id, f.Type)
@@ -1445,7 +2425,20 @@ func (x *xlat) function(out *bytes.Buffer, name string) {
 		default:
 			unsup(fd, "result signature")
 		}
-		body := x.block(fd.Body.List, nil, nil, nil, false)
+		var cur0 []*varInfo
+		if x.bt != nil {
+			cur0 = []*varInfo{x.bt}
+		}
+		body := x.block(fd.Body.List, cur0, nil, nil, false)
+		if x.bt != nil {
+			body = "let bt := (Text EmptyString) in " + body
+		}
+		var nps []string
+		for p := range x.needParams {
+			nps = append(nps, p)
+		}
+		sort.Strings(nps)
+		params = append(params, nps...)
 		var exts []string
 		for e := range x.externs {
 			exts = append(exts, e)
@@ -1465,7 +2458,7 @@ func (x *xlat) function(out *bytes.Buffer, name string) {
 }
 
 func emitFuncs(root, types *pkgFiles, env, tenv constEnv) []byte {
-	x := &xlat{pkg: "saml2", structs: map[string]map[string]string{}, consts: env, tconsts: tenv,
+	x := &xlat{pkg: "saml2", structs: map[string]map[string]string{}, consts: env, tconsts: tenv, constPrefix: "c_",
 		vars: map[string]ast.Expr{}, funcs: map[string]*ast.FuncDecl{}, done: map[string]string{}}
 	x.addStructs(types, "types")
 	x.addStructs(root, "saml2")
@@ -1504,5 +2497,83 @@ func emitFuncs(root, types *pkgFiles, env, tenv constEnv) []byte {
 	for _, n := range names {
 		x.function(&out, n)
 	}
+	// third unit: the tree-level entry points (they call the functions above) -> GenTree.v
+	var t bytes.Buffer
+	t.WriteString("(* GenTree.v — GENERATED by /verif/gen (funcs.go) from the function bodies of /repo's working tree on every run.\n")
+	t.WriteString("   Do not edit.  Target combinators: GenPrelude.v, GenPreludeT.v.  parseResponse, goxmldsig's Validate and\n")
+	t.WriteString("   decryptAssertions are Section variables (modelled in Deflate.v, Dsig.v, Response.v / Decrypt.v). *)\n")
+	t.WriteString("From V Require Import Base Time Xml Ns Types Generated Decode Profile Response Keys GenPrelude GenPreludeD GenPreludeT GenFuncs.\n\n")
+	t.WriteString("Section GenTree.\n")
+	t.WriteString("  Variable parse_response : string -> res node.\n")
+	t.WriteString("  Variable dsig : node -> dsig_result.\n")
+	t.WriteString("  Variable decrypt_all : node -> res node.\n\n")
+	for _, n := range treeFuncList {
+		x.function(&t, n)
+	}
+	t.WriteString("End GenTree.\n")
+	treeOut = t.Bytes()
+	// fourth unit: the message builders -> GenBuild.v
+	var b bytes.Buffer
+	b.WriteString("(* GenBuild.v — GENERATED by /verif/gen (funcs.go) from the function bodies of /repo's working tree on every run.\n")
+	b.WriteString("   Do not edit.  Target combinators: GenPrelude.v, GenPreludeB.v.  The enveloped-signature step (Sign*Request /\n")
+	b.WriteString("   SignLogoutResponse on the element built so far) is a Section variable; the random id and the clock are parameters. *)\n")
+	b.WriteString("From V Require Import Base Time Xml Generated Build GenPrelude GenPreludeB.\n\n")
+	b.WriteString("Section GenBuild.\n")
+	b.WriteString("  Variable sign_el : node -> res node.\n\n")
+	x.build = true
+	for _, n := range buildFuncList {
+		x.function(&b, n)
+	}
+	x.build = false
+	b.WriteString("End GenBuild.\n")
+	buildOut = b.Bytes()
+	return out.Bytes()
+}
+
+var treeOut []byte
+var buildOut []byte
+
+var buildFuncList = []string{"buildAuthnRequest", "buildLogoutRequest", "buildLogoutResponse"}
+
+var treeFuncList = []string{
+	"ValidateEncodedLogoutResponsePOST",
+	"ValidateEncodedLogoutRequestPOST",
+	"ValidateEncodedResponse",
+}
+
+// ---------- second unit: the decryption glue of package types -> coq/GenDecrypt.v ----------
+
+var decryptFuncList = []string{
+	"EncryptedKey.DecryptSymmetricKey",
+	"EncryptedAssertion.DecryptBytes",
+}
+
+func emitDecryptFuncs(types *pkgFiles, tenv constEnv) []byte {
+	x := &xlat{pkg: "types", structs: map[string]map[string]string{}, consts: tenv, tconsts: tenv, constPrefix: "t_", noNow: true,
+		vars: map[string]ast.Expr{}, funcs: map[string]*ast.FuncDecl{}, done: map[string]string{}}
+	x.addStructs(types, "types")
+	for k, v := range foreignStructs {
+		x.structs[k] = v
+	}
+	for _, fn := range sortedFiles(types) {
+		for _, d := range types.files[fn].Decls {
+			if n, ok := d.(*ast.FuncDecl); ok && n.Recv != nil && n.Body != nil && len(n.Recv.List) == 1 {
+				x.funcs[strings.TrimPrefix(typeStr(n.Recv.List[0].Type), "*")+"."+n.Name.Name] = n
+			}
+		}
+	}
+	var out bytes.Buffer
+	out.WriteString("(* GenDecrypt.v — GENERATED by /verif/gen (funcs.go) from the function bodies of /repo/types on every run.\n")
+	out.WriteString("   Do not edit.  Target combinators: GenPrelude.v, GenPreludeD.v.  The crypto primitives are Section variables. *)\n")
+	out.WriteString("From V Require Import Base Time Types Generated Decode Decrypt GenPrelude GenPreludeD.\n\n")
+	out.WriteString("Section GenDecrypt.\n")
+	out.WriteString("  Variable rsa_oaep : hash_id -> string -> option string.\n")
+	out.WriteString("  Variable rsa_pkcs1 : string -> option string.\n")
+	out.WriteString("  Variable gcm_open : string -> string -> string -> option string.\n")
+	out.WriteString("  Variable cbc_decrypt : string -> string -> string -> string.\n\n")
+	for _, n := range decryptFuncList {
+		x.function(&out, n)
+	}
+	out.WriteString("End GenDecrypt.\n")
 	return out.Bytes()
 }
